@@ -40,7 +40,13 @@ JoinCb == /\ E.ev = "join"
              ELSE /\ bad' = Flag(E.c \notin DOMAIN joinedKey, "RefusedCallbackForOwner") /\ joinOk' = Ext(joinOk, E.c, 2)
           /\ UNCHANGED <<owner, joinedKey, stopping, leaveCb, routed, refused, callKey>>
 LeaveCb == /\ E.ev = "leave"
-           /\ bad' = Flag(E.key = Get(joinedKey, E.c, "") /\ E.c \notin DOMAIN leaveCb, "LeaveCallback")
+           \* (the reader announces the join before it can reach its own stop(): leave comes after join; and when the leave callback
+           \* runs the registry has already dropped the key - unless another connection has taken it since)
+           /\ bad' = Flag(/\ E.key = Get(joinedKey, E.c, "") /\ E.c \notin DOMAIN leaveCb
+                          /\ (E.c \in DOMAIN joinedKey => Get(joinOk, E.c, 0) = 1)      \* (a connection that never joined is told of its end too)
+                          /\ (E.key \notin DOMAIN owner \/ owner[E.key] # E.c),
+                          IF E.c \in DOMAIN joinedKey /\ Get(joinOk, E.c, 0) # 1 THEN "LeaveCallbackBeforeJoinCallback"
+                          ELSE IF E.key \in DOMAIN owner /\ owner[E.key] = E.c THEN "LeaveCallbackBeforeTheKeyWasFreed" ELSE "LeaveCallback")
            /\ leaveCb' = Ext(leaveCb, E.c, E.key) /\ UNCHANGED <<owner, joinedKey, stopping, joinOk, routed, refused, callKey>>
 \* the caller's key is looked up as it was given (an all-zero phone, a key with leading zeros, the empty key)
 CmdCall == /\ E.ev = "cmd_call" /\ callKey' = Ext(callKey, E.k, E.key) /\ bad' = bad
